@@ -313,21 +313,14 @@ func c41Run(env *c41Env, c *c41Case, file string, mode string) (resp c41Resp, re
 
 	xdir := filepath.Join(env.dir, "x")
 
-	switch mode {
-	case "inproc":
-		settings.Set(defs.ChildServicesSetting, "false")
+	// (the transport settings are written once per phase in c41Phase, before the workers start:
+	// the settings map is not synchronised, so it must not be written while requests are in flight)
+	if mode == "inproc" {
 		// every request is the first request: a cached compilation unit (and its package-level state)
 		// is a property of the server's cache (C42), not of the transport
 		serviceCacheMutex.Lock()
 		ServiceCache = map[string]*CachedCompilationUnit{}
 		serviceCacheMutex.Unlock()
-	case "pipe":
-		settings.Set(defs.ChildServicesSetting, "true")
-		settings.Set(defs.ChildRequestDirSetting, defs.ChildServicesPipeMode)
-	case "file":
-		settings.Set(defs.ChildServicesSetting, "true")
-		settings.Set(defs.ChildRequestDirSetting, xdir)
-		settings.Set(defs.ChildRequestRetainSetting, "true")
 	}
 
 	w := httptest.NewRecorder()
@@ -1032,6 +1025,18 @@ type c41Result struct {
 func c41Phase(env *c41Env, cases []c41Case, files []string, res []c41Result, mode string, workers int) {
 	ch := make(chan int)
 	done := make(chan bool)
+
+	switch mode {
+	case "inproc":
+		settings.Set(defs.ChildServicesSetting, "false")
+	case "pipe":
+		settings.Set(defs.ChildServicesSetting, "true")
+		settings.Set(defs.ChildRequestDirSetting, defs.ChildServicesPipeMode)
+	case "file":
+		settings.Set(defs.ChildServicesSetting, "true")
+		settings.Set(defs.ChildRequestDirSetting, filepath.Join(env.dir, "x"))
+		settings.Set(defs.ChildRequestRetainSetting, "true")
+	}
 
 	for w := 0; w < workers; w++ {
 		go func() {
